@@ -197,6 +197,11 @@ type Runner struct {
 	recordHashes  bool
 	blockHashes   []string
 
+	// validators that x/staking removed while alliance delegations pointed at them, and the denoms of those
+	// delegations (sticky for the run: the validator record that a later create-validator makes is a new, empty one)
+	StrandedVals   map[string]bool
+	StrandedDenoms map[string]bool
+
 	ApplyExportImport bool // C18 run B: perform export -> wipe -> import at the marked block boundaries
 	exportFlagSet     bool
 	exportMerged      bool
@@ -205,6 +210,7 @@ type Runner struct {
 func NewRunner(w *World, s *Schedule, target string, mons []Monitor, kf *KnownFindings) *Runner {
 	return &Runner{W: w, S: s, Target: target, Mons: mons, Stats: newRunStats(), KF: kf,
 		BlockTimes: map[int64]time.Time{1: GenesisTime}, StopOnViol: true,
+		StrandedVals: map[string]bool{}, StrandedDenoms: map[string]bool{},
 		QS: alliancekeeper.NewQueryServerImpl(w.App.AllianceKeeper),
 		MS: alliancekeeper.NewMsgServerImpl(w.App.AllianceKeeper),
 	}
@@ -245,6 +251,26 @@ func (r *Runner) Violate(clause, class, detail string) {
 	if r.Verbose {
 		r.Trace = append(r.Trace, fmt.Sprintf("  !! VIOLATION %s [%s] %s", clause, class, detail))
 	}
+}
+
+// strandedPos: the position sits on a validator whose alliance record was deleted when x/staking removed the
+// validator (open finding): the record is missing, or it was created again empty and the delegations of
+// (validator, denom) add up to more than it records.
+func (r *Runner) strandedPos(s *Snap, val, denom string) bool {
+	if !r.StrandedVals[val] {
+		return false
+	}
+	vi, ok := s.ValInfos[val]
+	if _, sok := s.StVals[val]; !ok || !sok {
+		return true
+	}
+	sum := sdkmath.LegacyZeroDec()
+	for pk, d := range s.Dels {
+		if pk.Val == val && pk.Denom == denom {
+			sum = sum.Add(d.Shares)
+		}
+	}
+	return sum.GT(decCoinsAmount(vi.TotalDelegatorShares, denom))
 }
 
 func (r *Runner) failed() bool { return len(r.Viols) > 0 && r.StopOnViol }
@@ -778,6 +804,41 @@ func (r *Runner) finishStep(st *Step) {
 	} else {
 		st.Events = r.lastEvents
 	}
+	for _, k := range st.Post.DelOrder {
+		if _, ok := st.Post.StVals[k.Val]; !ok {
+			if !r.StrandedVals[k.Val] {
+				r.Probe("lifecycle_alliance_delegation_on_validator_removed_by_staking")
+				r.Fault("F10_validator_removed_with_alliance_stake")
+			}
+			r.StrandedVals[k.Val], r.StrandedDenoms[k.Denom] = true, true
+		}
+	}
+	if st.Pre != nil {
+		// ... or whose record still held validator shares (rounding dust of positions that have left counts too)
+		for v, vi := range st.Pre.ValInfos {
+			if _, ok := st.Post.StVals[v]; ok {
+				continue
+			}
+			for _, c := range vi.ValidatorShares {
+				if c.Amount.IsPositive() {
+					r.StrandedVals[v], r.StrandedDenoms[c.Denom] = true, true
+				}
+			}
+		}
+	}
+	// reach probes for validator lifecycle states the alliance code meets rarely
+	for v, vi := range st.Post.ValInfos {
+		sv, ok := st.Post.StVals[v]
+		switch {
+		case !ok:
+			r.Probe("lifecycle_alliance_validator_record_without_staking_validator")
+		case !sv.IsBonded() && len(vi.TotalDelegatorShares) > 0:
+			r.Probe("lifecycle_alliance_stake_on_non_bonded_validator")
+			if sv.Tokens.IsZero() {
+				r.Probe("lifecycle_alliance_stake_on_validator_without_tokens")
+			}
+		}
+	}
 	// reach probes for counts that default page sizes and loop bounds care about
 	if len(st.Post.Dels) > 100 {
 		r.Probe("scale_over_100_delegation_records")
@@ -1094,6 +1155,9 @@ func (r *Runner) execOp(st *Step, op *Op) {
 	case "n_delegate":
 		u := w.nativeByIdx(op.Who)
 		va := w.valByIdx(op.Val)
+		if op.Self {
+			u = va.Operator
+		}
 		ro.Del, ro.Val, ro.Denom = u.Addr, va.ValAddr, BondDenom
 		ref := w.App.BankKeeper.GetBalance(ctx, u.Addr, BondDenom).Amount
 		ro.Amount = r.resolveAmt(op.Amt, ref)
@@ -1102,6 +1166,9 @@ func (r *Runner) execOp(st *Step, op *Op) {
 	case "n_undelegate":
 		u := w.nativeByIdx(op.Who)
 		va := w.valByIdx(op.Val)
+		if op.Self {
+			u = va.Operator
+		}
 		ro.Del, ro.Val, ro.Denom = u.Addr, va.ValAddr, BondDenom
 		ro.Amount = r.resolveAmt(op.Amt, r.nativeStake(ctx, u.Addr, va.ValAddr))
 		ro.Msg = stakingtypes.NewMsgUndelegate(u.Addr.String(), va.ValAddr.String(), coinOrZero(BondDenom, ro.Amount))
@@ -1109,6 +1176,9 @@ func (r *Runner) execOp(st *Step, op *Op) {
 	case "n_redelegate":
 		u := w.nativeByIdx(op.Who)
 		va := w.valByIdx(op.Val)
+		if op.Self {
+			u = va.Operator
+		}
 		vb := w.valByIdx(op.Dst)
 		ro.Del, ro.Val, ro.Dst, ro.Denom = u.Addr, va.ValAddr, vb.ValAddr, BondDenom
 		ro.Amount = r.resolveAmt(op.Amt, r.nativeStake(ctx, u.Addr, va.ValAddr))
